@@ -35,13 +35,15 @@ Print Assumptions C15_padding.
 (* exact arithmetic, inner-product space, any square operator A, any batch: for every k up to the number of steps taken,
    if the first k steps were regular (remainder non-zero, clipped normalisation inactive) then columns 0..k of Q are
    orthonormal (modified Gram-Schmidt) and A q_j = sum_{i<=j+1} H[i,j] q_i for j < k (Arnoldi relation, by construction);
-   every sub-diagonal entry is a norm *)
+   for every step j taken, regular or not, A q_j = sum_{i<=j} H[i,j] q_i + x_j with H[j+1,j] = ||x_j|| *)
 Theorem C15_whole_run : forall (C V : Type) (o : kops C V) (A : V -> V) (nonneg : C -> Prop), ilaws o nonneg ->
   forall (tol : C) (n : nat) (vs : list V) (max_iters : nat), Forall (fun v => o.(vnrm) v <> o.(c0)) vs ->
   forall s, In s (snd (arnoldi_batch o A n vs max_iters tol)) ->
   let steps := fst (arnoldi_batch o A n vs max_iters tol) in
   (forall k, k <= steps -> alive o tol k s -> Good o A k s) /\
-  (forall j, j < steps -> exists x, Hent o (aH s) (S j) j = o.(vnrm) x).
+  (forall j, j < steps -> exists x, Hent o (aH s) (S j) j = o.(vnrm) x /\
+     forall u, o.(vdot) u (A (col o (aQ s) j)) =
+               o.(cadd) (csum o (S j) (fun i => o.(cmul) (Hent o (aH s) i j) (o.(vdot) u (col o (aQ s) i)))) (o.(vdot) u x)).
 Proof. exact @arnoldi_run. Qed.
 Print Assumptions C15_whole_run.
 
@@ -52,6 +54,32 @@ Theorem C15_subdiag_nonneg : forall (C V : Type) (o : kops C V) (A : V -> V) (no
   forall j, j < fst (arnoldi_batch o A n vs max_iters tol) -> nonneg (Hent o (aH s) (S j) j).
 Proof. exact @arnoldi_subdiag_nonneg. Qed.
 Print Assumptions C15_subdiag_nonneg.
+
+
+(* breakdown: a vanishing remainder at step j means A q_j lies in span(q_0..q_j): the basis spans an A-invariant subspace *)
+Theorem C15_breakdown_invariant : forall (C V : Type) (o : kops C V) (A : V -> V) (nonneg : C -> Prop), ilaws o nonneg ->
+  forall (tol : C) (n : nat) (vs : list V) (max_iters : nat), Forall (fun v => o.(vnrm) v <> o.(c0)) vs ->
+  forall s, In s (snd (arnoldi_batch o A n vs max_iters tol)) ->
+  forall j, j < fst (arnoldi_batch o A n vs max_iters tol) -> Hent o (aH s) (S j) j = o.(c0) ->
+  forall u, o.(vdot) u (A (col o (aQ s) j)) = csum o (S j) (fun i => o.(cmul) (Hent o (aH s) i j) (o.(vdot) u (col o (aQ s) i))).
+Proof. exact @arnoldi_breakdown_invariant. Qed.
+Print Assumptions C15_breakdown_invariant.
+
+(* Ritz pairs of the leading k x k block (what arnoldi_eigs returns when max_iters = k regular steps were taken; eig is an oracle):
+   A (Q_k y) = theta (Q_k y) + y_{k-1} H[k,k-1] q_k; exact eigenpairs of A when the last remainder vanishes *)
+Theorem C15_ritz_pairs : forall (C V : Type) (o : kops C V) (A : V -> V) (nonneg : C -> Prop), ilaws o nonneg ->
+  (forall u, o.(vdot) u (A o.(vzero)) = o.(c0)) ->
+  (forall u x a y, o.(vdot) u (A (o.(vadd) x (o.(vscale) a y))) = o.(cadd) (o.(vdot) u (A x)) (o.(cmul) a (o.(vdot) u (A y)))) ->
+  (forall u v w, o.(vdot) u (o.(vadd) v w) = o.(cadd) (o.(vdot) u v) (o.(vdot) u w)) -> (forall u, o.(vdot) u o.(vzero) = o.(c0)) ->
+  forall (s : @ast C V) (k : nat) (theta : C) (y : nat -> C), 1 <= k ->
+  (forall i j, j + 1 < i -> Hent o (aH s) i j = o.(c0)) ->
+  (forall j, j < k -> forall u, o.(vdot) u (A (col o (aQ s) j)) = csum o (S (S j)) (fun i => o.(cmul) (Hent o (aH s) i j) (o.(vdot) u (col o (aQ s) i)))) ->
+  (forall a, a < k -> csum o k (fun j => o.(cmul) (Hent o (aH s) a j) (y j)) = o.(cmul) theta (y a)) ->
+  forall u, o.(vdot) u (A (vcomb o k y (col o (aQ s)))) =
+            o.(cadd) (o.(cmul) theta (o.(vdot) u (vcomb o k y (col o (aQ s)))))
+                     (o.(cmul) (y (k - 1)) (o.(cmul) (Hent o (aH s) k (k - 1)) (o.(vdot) u (col o (aQ s) k)))).
+Proof. exact @arnoldi_ritz. Qed.
+Print Assumptions C15_ritz_pairs.
 
 (* the current tree, flag arnoldi_padding, for EVERY operator and start: with max_iters > n the square matrix that
    arnoldi_eigs hands to eig has a zero last column, so 0 is returned as an eigenvalue whatever the spectrum of A is *)
